@@ -1,6 +1,22 @@
 import argparse
+import importlib
 import os
 import sys
+
+# every module that defines CHECKS = {"Cxx": Check(...)}; modules are picked up when present
+MODULES = ["props_core", "props_more", "props_cache", "props_recur", "props_metrics", "props_mem",
+           "props_conc", "props_lazy", "props_pure", "props_ical", "props_gcsa"]
+
+
+def all_checks():
+    fams = {}
+    for m in MODULES:
+        path = os.path.join(os.path.dirname(__file__), m + ".py")
+        if not os.path.exists(path):
+            continue
+        mod = importlib.import_module("harness." + m)
+        fams.update(mod.CHECKS)
+    return fams
 
 
 def main():
@@ -10,10 +26,7 @@ def main():
     ap.add_argument("--replay")
     args = ap.parse_args()
     seed = int(os.environ.get("VERIF_SEED", "20260929"))
-    from . import props_core, props_more, props_cache
-    fams = dict(props_core.CHECKS)
-    fams.update(props_more.CHECKS)
-    fams.update(props_cache.CHECKS)
+    fams = all_checks()
     if args.prop not in fams:
         print(f"unknown property {args.prop}")
         return 2
